@@ -3,11 +3,11 @@
 
 class Run:
     def __init__(self, name, harness, defines=None, std='c++17', exc=False, entry='harness', preempt=2, faults=1, covers=0, optional_covers=(),
-                 native=('gxx-O0-san', 'gxx-O2'), bounds='', budget_s=900, max_path_steps=400000, own_new=False, max_witnesses=12, opt=None, shared_points=False, mt=False):
+                 native=('gxx-O0-san', 'gxx-O2'), bounds='', budget_s=900, max_path_steps=400000, own_new=False, max_witnesses=12, opt=None, shared_points=False, mt=False, gnuc='10.0.0'):
         self.name = name; self.harness = harness; self.defines = dict(defines or {}); self.std = std; self.exc = exc; self.entry = entry
         self.preempt = preempt; self.faults = faults; self.covers = covers; self.optional_covers = tuple(optional_covers)
         self.native = list(native) if native else []; self.bounds = bounds; self.budget_s = budget_s; self.max_path_steps = max_path_steps
-        self.own_new = own_new; self.max_witnesses = max_witnesses; self.opt = opt; self.shared_points = shared_points; self.mt = mt
+        self.own_new = own_new; self.max_witnesses = max_witnesses; self.opt = opt; self.shared_points = shared_points; self.mt = mt; self.gnuc = gnuc
 
 
 class Prop:
@@ -289,6 +289,46 @@ PROPS['C08'] = Prop(
               Run('c8_cl_threads_s2_p1', 'cl_threads.cpp', {'TT': 2, 'SS': 2, 'OPSET': 1}, preempt=1, covers=4, mt=True, budget_s=1700, bounds=_C8 + 'C03 two-thread schedules S=2, P=1')],
     outside='the bounds of the underlying harnesses (C01, C02, C05, C14, C09, C03); copies/moves/swaps of whole containers are covered by the engine heap accounting in C10, not by a tracked build',
     assumptions=['not a separate exploration: the same harnesses as C01/C02/C05/C14/C09/C03 built with counted callback and payload types'])
+
+_ST = 'eventpp::SingleThreading'; _MT = 'eventpp::MultipleThreading'; _SL = 'eventpp::GeneralThreading<eventpp::SpinLock>'
+def _cfg(name, harness, defines, std, opt, what, covers, oc=(), gnuc='10.0.0', **kw):
+    return Run(name, harness, defines, std=std, opt=opt, covers=covers, optional_covers=oc, gnuc=gnuc,
+               bounds='configuration cell: %s; -std=%s; clang IR at -%s%s; same reference model as the underlying property' % (what, std, opt or 'O1', '' if gnuc else '; clang default __GNUC__=4 (selects the GCC4 patch version of CallbackList::operator())'), **kw)
+_C20Q = [
+    _cfg('c20_cl_single_func_cxx11_O0', 'cl_history.cpp', {'KK': 3, 'THREADING': _ST, 'CBFUNC': None, 'HAVOC': None}, 'c++11', 'O0', 'C01 K=3, SingleThreading, std::function callbacks, storage pre-filled with arbitrary bytes', 8, (3, 4, 5, 7)),
+    _cfg('c20_cl_multi_pod_cxx14_O2', 'cl_history.cpp', {'KK': 3, 'THREADING': _MT, 'HAVOC': None}, 'c++14', 'O2', 'C01 K=3, MultipleThreading (std::mutex/std::atomic via the engine pthread models), POD functor callbacks, pre-filled storage', 8, (3, 4)),
+    _cfg('c20_cl_spin_pod_cxx20_O1', 'cl_history.cpp', {'KK': 3, 'THREADING': _SL}, 'c++20', None, 'C01 K=3, GeneralThreading<SpinLock> (real SpinLock on IR atomics)', 8, (3, 4)),
+    _cfg('c20_cl_gnuc4_cxx17_O1', 'cl_history.cpp', {'KK': 3}, 'c++17', None, 'C01 K=3, instrumented mutex', 8, (3, 4), gnuc=None),
+    _cfg('c20_nested_gnuc4_cxx17', 'cl_nested.cpp', {'N0': 3, 'AA': 2, 'DD': 2}, 'c++17', None, 'C02 A=2, instrumented mutex', 6, (5,), gnuc=None),
+    _cfg('c20_q_multi_cxx11_O1', 'q_history.cpp', {'KK': 3, 'RA': 0, 'PAYLOAD': 0, 'THREADING': _MT, 'HAVOC': None}, 'c++11', None, 'C05 K=3, MultipleThreading, pre-filled storage', 11, (11, 12, 4, 5)),
+    _cfg('c20_q_single_cxx20_O2', 'q_history.cpp', {'KK': 3, 'RA': 0, 'PAYLOAD': 1, 'THREADING': _ST, 'HAVOC': None}, 'c++20', 'O2', 'C05 K=3, SingleThreading, tracked payload by value, pre-filled storage', 11, (11, 12, 4, 5)),
+    _cfg('c20_q_spin_cxx14_O0', 'q_history.cpp', {'KK': 3, 'RA': 1, 'PAYLOAD': 0, 'THREADING': _SL}, 'c++14', 'O0', 'C05 K=3 RA=1, GeneralThreading<SpinLock>', 11, (11, 12)),
+    _cfg('c20_routing_movekey_hash_cxx11', 'disp_routing.cpp', {'CFG': 2, 'MAPK': 0}, 'c++11', None, 'C04 MoveKey by value, default (hashed) map', 6, native=('gxx-O0-san', 'gxx-O2', 'clang-O1')),
+    _cfg('c20_routing_int_hash_cxx20_O2', 'disp_routing.cpp', {'CFG': 0, 'MAPK': 2}, 'c++20', 'O2', 'C04 int key, unordered_map', 6, native=('gxx-O0-san', 'gxx-O2', 'clang-O1')),
+    _cfg('c20_routing_policy_map_cxx14_O0', 'disp_routing.cpp', {'CFG': 3, 'MAPK': 1}, 'c++14', 'O0', 'C04 getEvent policy, std::map', 6, native=('gxx-O0-san', 'gxx-O2', 'clang-O1')),
+    _cfg('c20_copymove_queue_single_cxx11', 'copymove.cpp', {'KK': 2, 'OBJ': 2, 'THREADING': _ST}, 'c++11', None, 'C10 EventQueue K=2, SingleThreading (its Atomic has no initialising default constructor), pre-filled storage', 9, (7, 8)),
+    _cfg('c20_copymove_queue_multi_cxx17', 'copymove.cpp', {'KK': 2, 'OBJ': 2, 'THREADING': _MT}, 'c++17', None, 'C10 EventQueue K=2, MultipleThreading (std::atomic default constructor leaves the value indeterminate before C++20), pre-filled storage', 9, (7, 8)),
+    _cfg('c20_copymove_hqueue_multi_cxx20', 'copymove.cpp', {'KK': 2, 'OBJ': 5, 'THREADING': _MT}, 'c++20', 'O2', 'C10 HeterEventQueue K=2, MultipleThreading', 9, (7, 8)),
+]
+PROPS['C20'] = Prop(
+    quick=_C20Q,
+    thorough=_C20Q + [
+    _cfg('c20_cl_multi_func_cxx20_O2', 'cl_history.cpp', {'KK': 4, 'THREADING': _MT, 'CBFUNC': None, 'HAVOC': None}, 'c++20', 'O2', 'C01 K=4, MultipleThreading, std::function', 8, (3, 4, 5, 7), budget_s=1700),
+    _cfg('c20_cl_single_pod_cxx14_O1', 'cl_history.cpp', {'KK': 4, 'THREADING': _ST, 'HAVOC': None}, 'c++14', None, 'C01 K=4, SingleThreading', 8, (3, 4), budget_s=1700),
+    _cfg('c20_cl_spin_func_cxx11_O0', 'cl_history.cpp', {'KK': 3, 'THREADING': _SL, 'CBFUNC': None}, 'c++11', 'O0', 'C01 K=3, SpinLock, std::function', 8, (3, 4, 5, 7), budget_s=1700),
+    _cfg('c20_nested_multi_cxx11', 'cl_nested.cpp', {'N0': 3, 'AA': 3, 'DD': 2, 'THREADING': 'VMutexOnlyThreading'}, 'c++11', 'O2', 'C02 A=3 at c++11/O2', 6, budget_s=1700),
+    _cfg('c20_q_multi_cxx20_O2', 'q_history.cpp', {'KK': 4, 'RA': 1, 'PAYLOAD': 0, 'THREADING': _MT, 'HAVOC': None}, 'c++20', 'O2', 'C05 K=4 RA=1, MultipleThreading', 11, (11, 12), budget_s=1700),
+    _cfg('c20_q_single_cxx11_O0', 'q_history.cpp', {'KK': 4, 'RA': 1, 'PAYLOAD': 2, 'THREADING': _ST, 'HAVOC': None}, 'c++11', 'O0', 'C05 K=4 RA=1, SingleThreading, payload by reference', 11, (11, 12), budget_s=1700),
+    ] + [_cfg('c20_routing_cfg%d_map%d_%s' % (c, m_, sd.replace('+', 'x')), 'disp_routing.cpp', {'CFG': c, 'MAPK': m_}, sd, o, 'C04 configuration %d, map kind %d' % (c, m_), 6, native=('gxx-O0-san', 'gxx-O2', 'clang-O1'))
+         for (c, m_, sd, o) in [(0, 0, 'c++11', 'O2'), (1, 1, 'c++14', None), (1, 2, 'c++20', 'O0'), (4, 0, 'c++11', None), (5, 2, 'c++14', 'O2'), (7, 1, 'c++20', None), (2, 2, 'c++17', 'O0'), (3, 0, 'c++20', 'O2')]] + [
+    _cfg('c20_copymove_cl_single_cxx14', 'copymove.cpp', {'KK': 3, 'OBJ': 0, 'THREADING': _ST}, 'c++14', 'O2', 'C10 CallbackList K=3 SingleThreading', 9, (8,), budget_s=1700),
+    _cfg('c20_copymove_disp_multi_cxx11', 'copymove.cpp', {'KK': 3, 'OBJ': 1, 'THREADING': _MT}, 'c++11', None, 'C10 EventDispatcher K=3 MultipleThreading', 9, (8,), budget_s=1700),
+    _cfg('c20_copymove_queue_spin_cxx20', 'copymove.cpp', {'KK': 3, 'OBJ': 2, 'THREADING': _SL}, 'c++20', 'O2', 'C10 EventQueue K=3 SpinLock', 9, budget_s=1700)],
+    outside='(a) solver-decided: only the listed cells of Threading x Map x Callback x ArgumentPassing x -std x clang optimisation level (quick: a covering subset; thorough: more cells, not the full product). '
+            '(b) NOT solver-decided: other compilers. g++ 12 (-O0, -O2) and clang++ 14 are reached only by native replay of the witness paths of every run, comparing observation traces; "any conforming compiler" is beyond what can be encoded with the tools present',
+    assumptions=['every cell is checked against the same reference model as its underlying property, hence all cells agree with each other',
+                 'object storage is pre-filled with symbolic bytes (vf_havoc) before construction in the cells marked so: a result depending on prior memory is found by the solver'])
+PROPS['C20'].note = 'The compiler dimension (g++ vs clang++, unspecified evaluation order) is covered by witness replay on native g++/clang++ builds, not by a solver verdict.'
 
 HOOK_COMMITS = []
 EBMC_PROPS = []
